@@ -39,11 +39,16 @@ const P = "C19"
 
 type flagType struct {
 	Name   string
-	Width  int                       // bits
-	Names  func(w uint64) []string   // decomposition into names (nil: type has no decomposition)
-	Flags  func(w uint64) []uint64   // GetFlags, if the type has one
-	Value  func(w uint64) reflect.Value // for predicates by reflection (invalid: none)
-	Empty  []string                  // what the decomposition of 0 looks like
+	Width  int                           // bits
+	Names  func(w uint64) []string       // decomposition into names (nil: type has no decomposition)
+	Reuse  func(prev, w uint64) []string // decomposition of w by a receiver that decomposed prev before (types whose decomposition fills the receiver)
+	Flags  func(w uint64) []uint64       // GetFlags, if the type has one
+	Value  func(w uint64) reflect.Value  // for predicates by reflection (invalid: none)
+	Empty  []string                      // what the decomposition of 0 looks like
+	Dir    string                        // where the bit constants are declared (relative to the repository root) ...
+	Type   string                        // ... as constants of this Go type
+	Prefix string                        // ... or as constants with this identifier prefix
+	Seeds  []uint64                      // well-known composite words (32-bit types)
 }
 
 func splitNames(s string, sep string) []string {
@@ -54,18 +59,26 @@ func splitNames(s string, sep string) []string {
 }
 
 var flagTypes = []flagType{
-	{Name: "flags.Flags", Width: 16,
+	{Name: "flags.Flags", Width: 16, Dir: "network/smb/smb_v10/message/header/flags", Prefix: "FLAGS_",
 		Names: func(w uint64) []string { return splitNames(flags.Flags(w).String(), "|") },
 		Value: func(w uint64) reflect.Value { return reflect.ValueOf(flags.Flags(w)) }},
-	{Name: "flags2.Flags2", Width: 16,
+	{Name: "flags2.Flags2", Width: 16, Dir: "network/smb/smb_v10/message/header/flags2", Prefix: "FLAGS2_",
 		Names: func(w uint64) []string { return splitNames(flags2.Flags2(w).String(), "|") },
 		Value: func(w uint64) reflect.Value { return reflect.ValueOf(flags2.Flags2(w)) }},
-	{Name: "capabilities.Capabilities", Width: 32,
+	{Name: "capabilities.Capabilities", Width: 32, Dir: "network/smb/smb_v10/capabilities", Type: "Capabilities",
+		// capability words servers and clients commonly negotiate (NT LM 0.12 servers with and without extended
+		// security, Unix extensions, large read/write; typical client words)
+		Seeds: []uint64{0x0000F3FD, 0x0000E3FD, 0x0000F3FC, 0x0000E3FC, 0x8000F3FD, 0x8000E3FD, 0x8000F3FC, 0x8000E3FC, 0x8001F3FD, 0x8001F3FC, 0x8001E3FC,
+			0x0001F3FD, 0x0001E3FC, 0x0080F3FD, 0x8080F3FD, 0x000000D4, 0x000003DC, 0x800000D4, 0xA00000D4, 0x0000805C, 0x000043FD, 0x8000C3FD, 0x0000031D, 0xC000F3FD, 0xE000F3FD},
 		Names: func(w uint64) []string { return splitNames(capabilities.Capabilities(w).String(), "|") },
 		Value: func(w uint64) reflect.Value { return reflect.ValueOf(capabilities.Capabilities(w)) }},
-	{Name: "securitymode.SecurityMode", Width: 8,
+	{Name: "securitymode.SecurityMode", Width: 8, Dir: "network/smb/smb_v10/securitymode", Type: "SecurityMode",
 		Value: func(w uint64) reflect.Value { return reflect.ValueOf(securitymode.SecurityMode(w)) }},
-	{Name: "ldap_attributes.UserAccountControl", Width: 32,
+	{Name: "ldap_attributes.UserAccountControl", Width: 32, Dir: "network/ldap/ldap_attributes", Type: "UserAccountControl",
+		// the userAccountControl values found on ordinary accounts: user, disabled user, password not required,
+		// password never expires, workstation, domain controller, trust, delegation, smart card, pre-auth off ...
+		Seeds: []uint64{512, 514, 544, 546, 66048, 66050, 66080, 66082, 4096, 4098, 4128, 4130, 69632, 532480, 528384, 8192, 83890176, 2080, 2050, 2048,
+			590336, 262656, 262658, 328192, 1049088, 1114624, 2097664, 2163200, 4194816, 4260352, 8389120, 16777728, 16843264, 528416, 16781312, 67117056, 16, 528, 530, 640, 8388608 + 512},
 		Names: func(w uint64) []string { return splitNames(ldap_attributes.UserAccountControl(w).String(), "|") },
 		Flags: func(w uint64) []uint64 {
 			var out []uint64
@@ -75,7 +88,16 @@ var flagTypes = []flagType{
 			return out
 		},
 		Value: func(w uint64) reflect.Value { return reflect.ValueOf(ldap_attributes.UserAccountControl(w)) }},
-	{Name: "key.CustomKeyInformationFlags", Width: 8,
+	{Name: "key.CustomKeyInformationFlags", Width: 8, Dir: "windows/keycredential/key", Prefix: "CustomKeyInformationFlags_",
+		Reuse: func(prev, w uint64) []string {
+			var f key.CustomKeyInformationFlags
+			f.FromBytes(byte(prev))
+			f.FromBytes(byte(w))
+			if f.Value != byte(w) {
+				return []string{fmt.Sprintf("<<Value %d>>", f.Value)}
+			}
+			return append([]string{}, f.Name...)
+		},
 		Names: func(w uint64) []string {
 			var f key.CustomKeyInformationFlags
 			f.FromBytes(byte(w))
@@ -134,6 +156,13 @@ func bitNamesUncached(ft *flagType) (names map[int]string, empty []string, probl
 		}
 		names[b] = d[0]
 	}
+	for a := 0; a < ft.Width; a++ {
+		for b := a + 1; b < ft.Width; b++ {
+			if na, ok := names[a]; ok && na == names[b] {
+				problems = append(problems, vf.F(ft.Name, "two-bits-share-a-name", "bits %d and %d are both %q", a, b, na))
+			}
+		}
+	}
 	return
 }
 
@@ -170,6 +199,16 @@ func checkDecompose(c wordCase) []vf.Finding {
 		if again := ft.Names(c.Word); !reflect.DeepEqual(again, got) {
 			fs = append(fs, vf.F(ft.Name, "order-not-deterministic", "word %#x: %v then %v", c.Word, got, again))
 			break
+		}
+	}
+	// a receiver that decomposed another word before gives the same decomposition
+	if ft.Reuse != nil {
+		mask := uint64(1)<<uint(ft.Width) - 1
+		for _, prev := range []uint64{0, mask, ^c.Word & mask, (c.Word - 1) & mask, (c.Word << 1) & mask} {
+			if again := ft.Reuse(prev, c.Word); !reflect.DeepEqual(again, got) {
+				fs = append(fs, vf.F(ft.Name, "reused-receiver-decomposes-differently", "word %#x after word %#x in the same receiver: %v, in a fresh one: %v", c.Word, prev, again, got))
+				break
+			}
 		}
 	}
 	if ft.Flags != nil {
@@ -273,20 +312,49 @@ func TestFlagWordsExhaustive(t *testing.T) {
 func TestFlagWords32Structured(t *testing.T) {
 	s := vf.Begin(t, P, "flagwords32-structured")
 	s.SetExhaustive()
-	s.Note("32-bit types: zero, every single bit, every pair of bits, every complement of a single bit, all-ones")
-	vf.Enum(s, func(yield func(wordCase)) {
-		for _, ft := range flagTypes {
+	s.Note("32-bit types: zero, every single bit, every pair of bits, every complement of a single bit, all-ones, every set of 3 and of 4 named bits, and the well-known composite words of the type (userAccountControl values of ordinary accounts, commonly negotiated capability words)")
+	vf.Enum(s, func(yield0 func(wordCase)) {
+		for i := range flagTypes {
+			ft := &flagTypes[i]
 			if ft.Width != 32 {
 				continue
 			}
-			yield(wordCase{ft.Name, 0})
-			yield(wordCase{ft.Name, 0xFFFFFFFF})
-			for a := 0; a < 32; a++ {
-				yield(wordCase{ft.Name, 1 << uint(a)})
-				yield(wordCase{ft.Name, 0xFFFFFFFF &^ (1 << uint(a))})
-				for b := a + 1; b < 32; b++ {
-					yield(wordCase{ft.Name, 1<<uint(a) | 1<<uint(b)})
+			seen := map[uint64]bool{}
+			yield := func(w uint64) {
+				if !seen[w] {
+					seen[w] = true
+					yield0(wordCase{ft.Name, w})
 				}
+			}
+			yield(0)
+			yield(0xFFFFFFFF)
+			for a := 0; a < 32; a++ {
+				yield(1 << uint(a))
+				yield(0xFFFFFFFF &^ (1 << uint(a)))
+				for b := a + 1; b < 32; b++ {
+					yield(1<<uint(a) | 1<<uint(b))
+				}
+			}
+			names, _, _ := bitNames(ft)
+			var named []uint
+			for b := 0; b < 32; b++ {
+				if _, ok := names[b]; ok {
+					named = append(named, uint(b))
+				}
+			}
+			for i := 0; i < len(named); i++ {
+				for j := i + 1; j < len(named); j++ {
+					for k := j + 1; k < len(named); k++ {
+						w3 := uint64(1)<<named[i] | 1<<named[j] | 1<<named[k]
+						yield(w3)
+						for l := k + 1; l < len(named); l++ {
+							yield(w3 | 1<<named[l])
+						}
+					}
+				}
+			}
+			for _, w := range ft.Seeds {
+				yield(w & 0xFFFFFFFF)
 			}
 		}
 	}, checkWord, wordNontrivial)
@@ -296,6 +364,14 @@ func TestFlagWords32Random(t *testing.T) {
 	s := vf.Begin(t, P, "flagwords32-random")
 	vf.Rapid(s, vf.N(40000, 1000000), func(t *rapid.T) wordCase {
 		n := rapid.SampledFrom([]string{"capabilities.Capabilities", "ldap_attributes.UserAccountControl"}).Draw(t, "type")
+		if seeds := typeByName(n).Seeds; rapid.IntRange(0, 3).Draw(t, "aroundSeed") == 0 {
+			// a well-known composite word with up to three bits flipped
+			w := rapid.SampledFrom(seeds).Draw(t, "seed")
+			for i, k := 0, rapid.IntRange(0, 3).Draw(t, "flips"); i < k; i++ {
+				w ^= 1 << uint(rapid.IntRange(0, 31).Draw(t, "bit"))
+			}
+			return wordCase{n, w & 0xFFFFFFFF}
+		}
 		return wordCase{n, uint64(rapid.Uint32().Draw(t, "w"))}
 	}, checkWord, wordNontrivial)
 }
@@ -307,7 +383,9 @@ type constFamily struct {
 	Dir     string // relative to the repository root
 	Type    string // Go type name of the constants, or ""
 	Prefix  string // identifier prefix when the constants are not of a distinct type
+	GoType  string // with Prefix: the Go type (integer type or structure) the constants belong to
 	Str     func(v uint64) string
+	After   func(prev, v uint64) string // name of v from a receiver that decoded prev before (types whose decoding fills the receiver)
 	MinDecl int
 	Bits    int // width of the underlying integer type
 }
@@ -319,6 +397,8 @@ func repoRoot() string {
 	return "/repo"
 }
 
+func le32(v uint64) []byte { return []byte{byte(v), byte(v >> 8), byte(v >> 16), byte(v >> 24)} }
+
 var families = []constFamily{
 	{Name: "codes.CommandCode", Dir: "network/smb/smb_v10/message/commands/codes", Type: "CommandCode", Str: func(v uint64) string { return codes.CommandCode(v).String() }, MinDecl: 70, Bits: 8},
 	{Name: "subcommands.NtTransactSubcommand", Dir: "network/smb/smb_v10/subcommands", Type: "NtTransactSubcommand", Str: func(v uint64) string { return subcommands.NtTransactSubcommand(v).String() }, MinDecl: 5, Bits: 16},
@@ -326,15 +406,61 @@ var families = []constFamily{
 	{Name: "subcommands.TransactionSubcommand", Dir: "network/smb/smb_v10/subcommands", Type: "TransactionSubcommand", Str: func(v uint64) string { return subcommands.TransactionSubcommand(v).String() }, MinDecl: 8, Bits: 16},
 	{Name: "netbios.SESSION_MESSAGE_TYPE", Dir: "network/netbios", Type: "SESSION_MESSAGE_TYPE", Str: func(v uint64) string { return netbios.SESSION_MESSAGE_TYPE(v).String() }, MinDecl: 6, Bits: 8},
 	{Name: "nt_status.NT_STATUS", Dir: "windows/nt_status", Type: "NT_STATUS", Str: func(v uint64) string { return nt_status.NT_STATUS(v).String() }, MinDecl: 1500, Bits: 32},
-	{Name: "key.KeyUsage", Dir: "windows/keycredential/key", Prefix: "KeyUsage_", Str: func(v uint64) string { k := key.KeyUsage{Value: uint8(v)}; return k.String() }, MinDecl: 8, Bits: 8},
+	{Name: "key.KeyUsage", Dir: "windows/keycredential/key", Prefix: "KeyUsage_", GoType: "KeyUsage", Str: func(v uint64) string { k := key.KeyUsage{Value: uint8(v)}; return k.String() },
+		After: func(prev, v uint64) string {
+			var k key.KeyUsage
+			k.FromBytes(byte(prev))
+			k.FromBytes(byte(v))
+			return k.String()
+		}, MinDecl: 8, Bits: 8},
 	{Name: "key.KeySource", Dir: "windows/keycredential/key", Type: "KeySource", Str: func(v uint64) string { return key.KeySource(v).String() }, MinDecl: 2, Bits: 32},
-	{Name: "key.KeyCredentialEntryType", Dir: "windows/keycredential/key", Prefix: "KeyCredentialEntryType_", Str: func(v uint64) string { k := key.KeyCredentialEntryType{Value: uint8(v)}; return k.String() }, MinDecl: 9, Bits: 8},
-	{Name: "key.KeyCredentialVersion", Dir: "windows/keycredential/key", Prefix: "KeyCredentialVersion_", Str: func(v uint64) string { k := key.KeyCredentialVersion{Value: uint32(v)}; return k.String() }, MinDecl: 3, Bits: 32},
-	{Name: "key.CustomKeyInformationVolumeType", Dir: "windows/keycredential/key", Prefix: "CustomKeyInformationVolumeType_", Str: func(v uint64) string { k := key.CustomKeyInformationVolumeType{Value: uint8(v)}; return k.String() }, MinDecl: 4, Bits: 8},
-	{Name: "ldap_attributes.SAMAccountType", Dir: "network/ldap/ldap_attributes", Prefix: "SAM_", Str: func(v uint64) string { return ldap_attributes.SAMAccountType(v).String() }, MinDecl: 8, Bits: 32},
+	{Name: "key.KeyCredentialEntryType", Dir: "windows/keycredential/key", Prefix: "KeyCredentialEntryType_", GoType: "KeyCredentialEntryType", Str: func(v uint64) string { k := key.KeyCredentialEntryType{Value: uint8(v)}; return k.String() },
+		After: func(prev, v uint64) string {
+			var k key.KeyCredentialEntryType
+			k.FromBytes(byte(prev))
+			k.FromBytes(byte(v))
+			return k.String()
+		}, MinDecl: 9, Bits: 8},
+	{Name: "key.KeyCredentialVersion", Dir: "windows/keycredential/key", Prefix: "KeyCredentialVersion_", GoType: "KeyCredentialVersion", Str: func(v uint64) string { k := key.KeyCredentialVersion{Value: uint32(v)}; return k.String() },
+		After: func(prev, v uint64) string {
+			var k key.KeyCredentialVersion
+			k.FromBytes(le32(prev))
+			k.FromBytes(le32(v))
+			return k.String()
+		}, MinDecl: 3, Bits: 32},
+	{Name: "key.CustomKeyInformationVolumeType", Dir: "windows/keycredential/key", Prefix: "CustomKeyInformationVolumeType_", GoType: "CustomKeyInformationVolumeType", Str: func(v uint64) string { k := key.CustomKeyInformationVolumeType{Value: uint8(v)}; return k.String() },
+		After: func(prev, v uint64) string {
+			var k key.CustomKeyInformationVolumeType
+			k.FromBytes(byte(prev))
+			k.FromBytes(byte(v))
+			return k.String()
+		}, MinDecl: 4, Bits: 8},
+	// KeyStrength has no String method: its name is the Name field FromBytes fills
+	{Name: "key.KeyStrength", Dir: "windows/keycredential/key", Prefix: "KeyStrength_", GoType: "KeyStrength", Str: func(v uint64) string { var k key.KeyStrength; k.FromBytes(le32(v)); return k.Name },
+		After: func(prev, v uint64) string {
+			var k key.KeyStrength
+			k.FromBytes(le32(prev))
+			k.FromBytes(le32(v))
+			return k.Name
+		}, MinDecl: 3, Bits: 32},
+	{Name: "ldap_attributes.SAMAccountType", Dir: "network/ldap/ldap_attributes", Prefix: "SAM_", GoType: "SAMAccountType", Str: func(v uint64) string { return ldap_attributes.SAMAccountType(v).String() }, MinDecl: 8, Bits: 32},
 	{Name: "ldap_attributes.DomainFunctionalityLevel", Dir: "network/ldap/ldap_attributes", Type: "DomainFunctionalityLevel", Str: func(v uint64) string { return ldap_attributes.DomainFunctionalityLevel(v).String() }, MinDecl: 8, Bits: 8},
-	{Name: "ldap_attributes.MSPKIEnrollmentFlag", Dir: "network/ldap/ldap_attributes", Prefix: "MSPKI_ENROLLMENT_FLAG_", Str: func(v uint64) string { return ldap_attributes.MSPKIEnrollmentFlag(v).String() }, MinDecl: 8, Bits: 32},
+	{Name: "ldap_attributes.MSPKIEnrollmentFlag", Dir: "network/ldap/ldap_attributes", Prefix: "MSPKI_ENROLLMENT_FLAG_", GoType: "MSPKIEnrollmentFlag", Str: func(v uint64) string { return ldap_attributes.MSPKIEnrollmentFlag(v).String() }, MinDecl: 8, Bits: 32},
 	{Name: "ldap_attributes.PasswordProperties", Dir: "network/ldap/ldap_attributes", Type: "PasswordProperties", Str: func(v uint64) string { return ldap_attributes.PasswordProperties(v).String() }, MinDecl: 6, Bits: 32},
+}
+
+// the package directories the property anchors (non-recursive)
+var anchoredDirs = []string{
+	"network/ldap/ldap_attributes",
+	"network/smb/smb_v10/message/header/flags",
+	"network/smb/smb_v10/message/header/flags2",
+	"network/smb/smb_v10/capabilities",
+	"network/smb/smb_v10/securitymode",
+	"network/smb/smb_v10/message/commands/codes",
+	"network/smb/smb_v10/subcommands",
+	"windows/nt_status",
+	"windows/keycredential/key",
+	"network/netbios",
 }
 
 type declConst struct {
@@ -348,15 +474,31 @@ func (nullImporter) Import(path string) (*types.Package, error) {
 	return types.NewPackage(path, filepath.Base(path)), nil
 }
 
+// pkgDecl is what the source of one package directory of the tree under test declares.
+type pkgDecl struct {
+	pkgName    string
+	byType     map[string][]declConst // integer constants by the name of their declared (named) type
+	all        []declConst            // every integer constant
+	intTypes   map[string]bool        // named types with an integer underlying type
+	structs    map[string]bool        // named structure types
+	methods    map[string]map[string]bool
+	constIdent map[string]bool
+}
+
+var declCache = map[string]*pkgDecl{}
+
 // declared parses the package directory of the tree under test and returns
-// its integer constants with their declared type names.
-func declared(dir string) (byType map[string][]declConst, all []declConst, err error) {
+// its integer constants with their declared type names, its types and their methods.
+func declared(dir string) (*pkgDecl, error) {
+	if d, ok := declCache[dir]; ok {
+		return d, nil
+	}
 	fset := token.NewFileSet()
 	pkgs, err := parser.ParseDir(fset, filepath.Join(repoRoot(), dir), func(fi os.FileInfo) bool { return !strings.HasSuffix(fi.Name(), "_test.go") }, 0)
 	if err != nil {
-		return nil, nil, err
+		return nil, err
 	}
-	byType = map[string][]declConst{}
+	pd := &pkgDecl{byType: map[string][]declConst{}, intTypes: map[string]bool{}, structs: map[string]bool{}, methods: map[string]map[string]bool{}, constIdent: map[string]bool{}}
 	for _, pkg := range pkgs {
 		var files []*ast.File
 		names := make([]string, 0, len(pkg.Files))
@@ -367,13 +509,43 @@ func declared(dir string) (byType map[string][]declConst, all []declConst, err e
 		for _, n := range names {
 			files = append(files, pkg.Files[n])
 		}
+		for _, f := range files {
+			for _, d := range f.Decls {
+				fd, ok := d.(*ast.FuncDecl)
+				if !ok || fd.Recv == nil || len(fd.Recv.List) != 1 {
+					continue
+				}
+				rt := fd.Recv.List[0].Type
+				if st, ok := rt.(*ast.StarExpr); ok {
+					rt = st.X
+				}
+				if id, ok := rt.(*ast.Ident); ok {
+					if pd.methods[id.Name] == nil {
+						pd.methods[id.Name] = map[string]bool{}
+					}
+					pd.methods[id.Name][fd.Name.Name] = true
+				}
+			}
+		}
 		conf := types.Config{Importer: nullImporter{}, Error: func(error) {}}
 		tp, _ := conf.Check(pkg.Name, fset, files, nil)
 		if tp == nil {
 			continue
 		}
+		pd.pkgName = pkg.Name
 		sc := tp.Scope()
 		for _, n := range sc.Names() {
+			if tn, ok := sc.Lookup(n).(*types.TypeName); ok && !tn.IsAlias() {
+				switch u := tn.Type().Underlying().(type) {
+				case *types.Basic:
+					if u.Info()&types.IsInteger != 0 {
+						pd.intTypes[n] = true
+					}
+				case *types.Struct:
+					pd.structs[n] = true
+				}
+				continue
+			}
 			c, ok := sc.Lookup(n).(*types.Const)
 			if !ok || c.Val().Kind() != constant.Int {
 				continue
@@ -387,35 +559,135 @@ func declared(dir string) (byType map[string][]declConst, all []declConst, err e
 				}
 			}
 			d := declConst{n, u}
-			all = append(all, d)
+			pd.all = append(pd.all, d)
+			pd.constIdent[n] = true
 			if named, ok := c.Type().(*types.Named); ok {
-				byType[named.Obj().Name()] = append(byType[named.Obj().Name()], d)
+				pd.byType[named.Obj().Name()] = append(pd.byType[named.Obj().Name()], d)
 			}
 		}
 	}
-	return
+	declCache[dir] = pd
+	return pd, nil
 }
 
-func (f constFamily) consts() ([]declConst, error) {
-	byType, all, err := declared(f.Dir)
+func constsOf(dir, typ, prefix string) ([]declConst, error) {
+	pd, err := declared(dir)
 	if err != nil {
 		return nil, err
 	}
-	if f.Type != "" {
-		return byType[f.Type], nil
+	if typ != "" {
+		return pd.byType[typ], nil
 	}
 	var out []declConst
-	for _, d := range all {
-		if strings.HasPrefix(d.Ident, f.Prefix) {
+	for _, d := range pd.all {
+		if strings.HasPrefix(d.Ident, prefix) {
 			out = append(out, d)
 		}
 	}
 	return out, nil
 }
 
-var digits = regexp.MustCompile(`[0-9]+`)
+func (f constFamily) consts() ([]declConst, error) { return constsOf(f.Dir, f.Type, f.Prefix) }
 
-func norm(s string) string { return digits.ReplaceAllString(s, "N") }
+// uncovered scans the anchored directories for types that map integer constants to names and are in
+// neither inventory: a named integer type with a String method, or a structure with a String or FromBytes
+// method and at least two integer constants named <Type>_... . The inventories are hand-written; this keeps
+// them complete.
+func uncovered() ([]string, error) {
+	var missing []string
+	for _, dir := range anchoredDirs {
+		pd, err := declared(dir)
+		if err != nil {
+			return nil, err
+		}
+		covered := func(typ string) bool {
+			for _, ft := range flagTypes {
+				if ft.Dir == dir && ft.Name == pd.pkgName+"."+typ {
+					return true
+				}
+			}
+			for _, f := range families {
+				if f.Dir == dir && (f.Type == typ || f.GoType == typ) {
+					return true
+				}
+			}
+			return false
+		}
+		var cands []string
+		for t := range pd.intTypes {
+			if pd.methods[t]["String"] {
+				cands = append(cands, t)
+			}
+		}
+		for t := range pd.structs {
+			if !pd.methods[t]["String"] && !pd.methods[t]["FromBytes"] {
+				continue
+			}
+			n := 0
+			for id := range pd.constIdent {
+				if strings.HasPrefix(id, t+"_") {
+					n++
+				}
+			}
+			if n >= 2 {
+				cands = append(cands, t)
+			}
+		}
+		sort.Strings(cands)
+		for _, t := range cands {
+			if !covered(t) {
+				missing = append(missing, dir+": "+t)
+			}
+		}
+	}
+	return missing, nil
+}
+
+// renderings of a value a name may embed: decimal (unsigned, and signed at the family's width), hexadecimal in
+// lower and upper case, bare and zero-padded to 2, 4, 8, 16 digits, with and without 0x. Longest first.
+func renderings(v uint64, bits int) []string {
+	set := map[string]bool{fmt.Sprintf("%d", v): true}
+	switch {
+	case bits <= 8:
+		set[fmt.Sprintf("%d", int8(v))] = true
+	case bits <= 16:
+		set[fmt.Sprintf("%d", int16(v))] = true
+	case bits <= 32:
+		set[fmt.Sprintf("%d", int32(v))] = true
+	default:
+		set[fmt.Sprintf("%d", int64(v))] = true
+	}
+	for _, w := range []int{0, 2, 4, 8, 16} {
+		h := fmt.Sprintf("%0*x", w, v)
+		set[h], set["0x"+h] = true, true
+	}
+	out := make([]string, 0, len(set))
+	for r := range set {
+		out = append(out, r)
+	}
+	sort.Slice(out, func(i, j int) bool {
+		if len(out[i]) != len(out[j]) {
+			return len(out[i]) > len(out[j])
+		}
+		return out[i] < out[j]
+	})
+	return out
+}
+
+// normValue lower-cases a name and replaces every rendering of its own value by a token, so that the names
+// undeclared values get ("UNKNOWN", "Unknown version: 238", "UNKNOWN(0x000000ee)") become one string per family.
+func normValue(name string, v uint64, bits int) string {
+	s := strings.ToLower(name)
+	for _, r := range renderings(v, bits) {
+		s = strings.ReplaceAll(s, r, "\x00")
+	}
+	return s
+}
+
+var nonAlnum = regexp.MustCompile(`[^a-z0-9]+`)
+
+// squash: lower case, letters and digits only
+func squash(s string) string { return nonAlnum.ReplaceAllString(strings.ToLower(s), "") }
 
 type constCase struct {
 	Family string `json:"family"`
@@ -428,8 +700,13 @@ var famCache = map[string]*famInfo{}
 type famInfo struct {
 	fam          *constFamily
 	decl         []declConst
-	placeholders map[string]bool
+	placeholders map[string]bool // normValue of the names of undeclared probe values
+	probes       []uint64        // undeclared values
 	nameOf       map[uint64]string
+}
+
+func (fi *famInfo) isPlaceholder(name string, v uint64) bool {
+	return fi.placeholders[normValue(name, v, fi.fam.Bits)]
 }
 
 func familyInfo(name string) (*famInfo, error) {
@@ -452,15 +729,14 @@ func familyInfo(name string) (*famInfo, error) {
 			fi.nameOf[d.Value] = f.Str(d.Value)
 		}
 		// learn placeholders from values that are not declared
-		n := 0
 		for _, probe := range []uint64{0xEE, 0xED, 0xFB, 0x7B, 0xEEEE, 0xFFFE, 0xFEEDFACE, 0x7EEDFACE, 0xFFFFFFFE, 0xAB, 0x3B} {
 			if probe >= uint64(1)<<uint(f.Bits) || isDecl[probe] {
 				continue
 			}
-			fi.placeholders[norm(f.Str(probe))] = true
-			n++
+			fi.placeholders[normValue(f.Str(probe), probe, f.Bits)] = true
+			fi.probes = append(fi.probes, probe)
 		}
-		if n < 2 {
+		if len(fi.probes) < 2 {
 			return nil, fmt.Errorf("family %s: fewer than two undeclared probe values", name)
 		}
 		famCache[name] = fi
@@ -469,8 +745,6 @@ func familyInfo(name string) (*famInfo, error) {
 	return nil, fmt.Errorf("unknown family %s", name)
 }
 
-var placeholderIdent = regexp.MustCompile(`(?i)none|unknown|unspecified|default`)
-
 func checkConst(c constCase) []vf.Finding {
 	fi, err := familyInfo(c.Family)
 	if err != nil {
@@ -478,15 +752,32 @@ func checkConst(c constCase) []vf.Finding {
 	}
 	var fs []vf.Finding
 	name := fi.fam.Str(c.Value)
+	placeholder := fi.isPlaceholder(name, c.Value)
 	if strings.TrimSpace(name) == "" {
 		fs = append(fs, vf.F(c.Family, "constant-without-name", "%s = %#x has an empty name", c.Ident, c.Value))
-	} else if fi.placeholders[norm(name)] && !placeholderIdent.MatchString(c.Ident) {
+	} else if placeholder && !(squash(name) != "" && strings.HasSuffix(squash(c.Ident), squash(name))) {
+		// a constant may carry the name undeclared values get only if that is its own name: KeyX_None -> "None"
 		fs = append(fs, vf.F(c.Family, "constant-maps-to-placeholder", "%s = %#x -> %q, which is what undeclared values get", c.Ident, c.Value, name))
 	}
 	for v, n := range fi.nameOf {
-		if v != c.Value && n == name && !fi.placeholders[norm(name)] {
+		if v != c.Value && n == name && !placeholder {
 			fs = append(fs, vf.F(c.Family, "two-values-share-a-name", "%s = %#x and value %#x are both %q", c.Ident, c.Value, v, name))
 			break
+		}
+	}
+	// decoding into a receiver that decoded something else before gives the same name
+	if fi.fam.After != nil {
+		prevs := []uint64{fi.probes[0], fi.probes[1]}
+		for i, d := range fi.decl {
+			if d.Value == c.Value && d.Ident == c.Ident {
+				prevs = append(prevs, fi.decl[(i+1)%len(fi.decl)].Value, fi.decl[(i+len(fi.decl)-1)%len(fi.decl)].Value)
+			}
+		}
+		for _, prev := range prevs {
+			if again := fi.fam.After(prev, c.Value); again != name {
+				fs = append(fs, vf.F(c.Family, "reused-receiver-gives-another-name", "%s = %#x decoded after %#x in the same receiver: %q, in a fresh one: %q", c.Ident, c.Value, prev, again, name))
+				break
+			}
 		}
 	}
 	if c.Family == "nt_status.NT_STATUS" {
@@ -510,6 +801,11 @@ func checkConst(c constCase) []vf.Finding {
 func TestConstants(t *testing.T) {
 	s := vf.Begin(t, P, "constants")
 	s.SetExhaustive()
+	if missing, err := uncovered(); err != nil {
+		t.Fatalf("INFRA: %v", err)
+	} else if len(missing) > 0 {
+		t.Fatalf("INFRA: types of the anchored directories that name integer constants but are in neither inventory (flagTypes, families) of this check: %v", missing)
+	}
 	lowByte := map[string]map[uint64]int{}
 	vf.Enum(s, func(yield func(constCase)) {
 		for _, f := range families {
@@ -532,8 +828,8 @@ func TestConstants(t *testing.T) {
 	}, checkConst, func(c constCase) bool { return lowByte[c.Family][c.Value&0xFF] > 1 || c.Value > 0xFF })
 }
 
-// undeclared NT status values: String/Error must not crash; Error of an undeclared
-// non-zero value is unspecified.
+// undeclared NT status values: String/Error must not crash; what they are called and what Error returns
+// for them is not part of the property.
 func TestNTStatusRandom(t *testing.T) {
 	s := vf.Begin(t, P, "ntstatus-random")
 	vf.Rapid(s, vf.N(20000, 300000), func(t *rapid.T) constCase {
@@ -543,11 +839,179 @@ func TestNTStatusRandom(t *testing.T) {
 		if _, isDecl := fi.nameOf[c.Value]; isDecl {
 			return checkConst(constCase{c.Family, "(declared)", c.Value})
 		}
-		n := nt_status.NT_STATUS(c.Value).String()
-		if !fi.placeholders[norm(n)] {
-			return []vf.Finding{vf.F(c.Family, "undeclared-value-has-a-name", "%#08x -> %q", c.Value, n)}
-		}
+		_ = nt_status.NT_STATUS(c.Value).String()
 		_ = nt_status.NT_STATUS(c.Value).Error()
 		return nil
 	}, func(c constCase) bool { return c.Value>>30 != 0 })
+}
+
+// ---- a label belongs to its own constant -------------------------------------------------------------------
+//
+// The name oracles above learn name(b) / name(v) from the code under test, so two labels that changed places
+// satisfy them. Here each label is tied to the identifier of the constant it belongs to: over the squashed
+// forms (lower case, letters and digits only; the identifiers without the part they all share), the longest
+// common substring of a label with the identifier of its own constant must not be clearly shorter than
+// with the identifier of another constant of the same family.
+
+type labelCase struct {
+	Family string `json:"family"`
+	Ident  string `json:"ident"`
+	Value  uint64 `json:"value"`
+}
+
+type labelFamily struct {
+	name   string
+	decl   []declConst
+	short  map[string]string // identifier -> squashed identifier without the shared prefix
+	label  func(v uint64) (string, bool)
+	idents map[uint64][]string // a value may have several identifiers
+}
+
+var labelFamCache = map[string]*labelFamily{}
+
+func lcsLen(a, b string) int {
+	best := 0
+	prev := make([]int, len(b)+1)
+	cur := make([]int, len(b)+1)
+	for i := 1; i <= len(a); i++ {
+		for j := 1; j <= len(b); j++ {
+			if a[i-1] == b[j-1] {
+				cur[j] = prev[j-1] + 1
+				if cur[j] > best {
+					best = cur[j]
+				}
+			} else {
+				cur[j] = 0
+			}
+		}
+		prev, cur = cur, prev
+	}
+	return best
+}
+
+func newLabelFamily(name string, decl []declConst, label func(v uint64) (string, bool)) *labelFamily {
+	lf := &labelFamily{name: name, decl: decl, short: map[string]string{}, label: label, idents: map[uint64][]string{}}
+	// the shared prefix, cut back to the last underscore
+	prefix := ""
+	if len(decl) > 1 {
+		prefix = decl[0].Ident
+		for _, d := range decl[1:] {
+			for !strings.HasPrefix(d.Ident, prefix) {
+				prefix = prefix[:len(prefix)-1]
+			}
+		}
+		prefix = prefix[:strings.LastIndex(prefix, "_")+1]
+	}
+	for _, d := range decl {
+		lf.short[d.Ident] = squash(strings.TrimPrefix(d.Ident, prefix))
+		lf.idents[d.Value] = append(lf.idents[d.Value], d.Ident)
+	}
+	return lf
+}
+
+func labelFamilyOf(name string) (*labelFamily, error) {
+	if lf, ok := labelFamCache[name]; ok {
+		return lf, nil
+	}
+	var lf *labelFamily
+	if ft := typeByName(name); ft != nil {
+		decl, err := constsOf(ft.Dir, ft.Type, ft.Prefix)
+		if err != nil {
+			return nil, err
+		}
+		names, _, _ := bitNames(ft)
+		lf = newLabelFamily(name, decl, func(v uint64) (string, bool) {
+			if bits.OnesCount64(v) != 1 {
+				return "", false // masks and the zero constant have no label of their own
+			}
+			n, ok := names[bits.TrailingZeros64(v)]
+			return n, ok
+		})
+	} else {
+		fi, err := familyInfo(name)
+		if err != nil {
+			return nil, err
+		}
+		lf = newLabelFamily(name, fi.decl, func(v uint64) (string, bool) {
+			n := fi.nameOf[v]
+			return n, strings.TrimSpace(n) != "" && !fi.isPlaceholder(n, v)
+		})
+	}
+	labelFamCache[name] = lf
+	return lf, nil
+}
+
+// how much longer the match with a foreign identifier must be before the label counts as misplaced: naming
+// quirks (abbreviations, words shared by neighbouring constants) stay below it
+const labelMargin = 2
+
+func checkLabel(c labelCase) []vf.Finding {
+	lf, err := labelFamilyOf(c.Family)
+	if err != nil {
+		return []vf.Finding{vf.F("harness", "cannot-parse-source", "%v", err)}
+	}
+	label, ok := lf.label(c.Value)
+	if !ok {
+		return nil
+	}
+	l := squash(label)
+	own := 0
+	for _, id := range lf.idents[c.Value] {
+		if n := lcsLen(l, lf.short[id]); n > own {
+			own = n
+		}
+	}
+	if own == len(l) {
+		return nil // the whole label occurs in its own identifier: nothing can match better
+	}
+	for _, d := range lf.decl {
+		if d.Value == c.Value {
+			continue
+		}
+		if _, labelled := lf.label(d.Value); !labelled {
+			continue
+		}
+		if n := lcsLen(l, lf.short[d.Ident]); n >= own+labelMargin {
+			return []vf.Finding{vf.F(c.Family+"."+c.Ident, "label-matches-another-constant", "%s = %#x is called %q, which matches %s (%d characters in common) better than its own identifier (%d)", c.Ident, c.Value, label, d.Ident, n, own)}
+		}
+	}
+	return nil
+}
+
+func TestLabelsBelongToTheirConstants(t *testing.T) {
+	s := vf.Begin(t, P, "labels-own-constant")
+	s.SetExhaustive()
+	size := map[string]int{}
+	vf.Enum(s, func(yield func(labelCase)) {
+		var fams []string
+		for _, ft := range flagTypes {
+			if ft.Names != nil {
+				fams = append(fams, ft.Name)
+			}
+		}
+		for _, f := range families {
+			fams = append(fams, f.Name)
+		}
+		for _, name := range fams {
+			lf, err := labelFamilyOf(name)
+			if err != nil {
+				t.Fatalf("INFRA: %v", err)
+			}
+			if len(lf.decl) < 2 {
+				t.Fatalf("INFRA: %s: %d constants found in the source: the source enumeration is broken", name, len(lf.decl))
+			}
+			for _, d := range lf.decl {
+				if _, ok := lf.label(d.Value); ok {
+					size[name]++
+				}
+			}
+			for _, d := range lf.decl {
+				yield(labelCase{name, d.Ident, d.Value})
+			}
+		}
+	}, checkLabel, func(c labelCase) bool {
+		lf, _ := labelFamilyOf(c.Family)
+		_, ok := lf.label(c.Value)
+		return ok && size[c.Family] >= 2
+	})
 }
